@@ -1476,8 +1476,11 @@ def item_witness(cat):
         "any": ({"k": "anything"}, {"l": [1, {"l": [2]}]}, {"l": [1, {"l": [2]}]}),
         "coll": (ARR_INT, {"l": [1, 2]}, {"l": [1, 2]}),
         "struct": (INNER, inst, inner_doc),
-        "inline": (dict(_cls("Inl", [["x", INT], ["l", ARR_INT]]), inline=True), inner_doc, inner_doc),
-        "wrap": ({"k": "anyOf", "fields": [STR, ARR_INT]}, {"l": [1, 2]}, {"l": [1, 2]}),
+        # (an undeclared key holding a container: kept by reference by the inline structure on its own)
+        "inline": (dict(_cls("Inl", [["x", INT], ["l", ARR_INT]], addl=True), inline=True),
+                   {"m": inner_doc["m"] + [["zz", {"l": [1]}]]}, {"m": inner_doc["m"] + [["zz", {"l": [1]}]]}),
+        # (untyped content inside: a wrapper that copies generically and one that hands the value on can be told apart)
+        "wrap": ({"k": "anyOf", "fields": [STR, {"k": "seqAny"}]}, {"l": [1, {"l": [2]}]}, {"l": [1, {"l": [2]}]}),
     }[cat]
 
 
@@ -1537,6 +1540,10 @@ def witness(kind, cat):
         if cat == "none":
             return None
         d, v, doc = item_witness(cat)
+        if cat == "coll":
+            # a collection option with UNTYPED content: the option on its own keeps the inner objects, so whether the
+            # wrapper hands the value to the option or copies it generically (OneOf / AllOf: a private deep copy) shows
+            d, v, doc = UNTYPED_WITNESS["array"]
         if kind == "allOf":
             return {"k": "allOf", "fields": [d]}, v, doc
         other = STR if cat not in ("string",) else INT
